@@ -15,7 +15,7 @@ PROP = "C08"
 RULE = ("random triples (target flow F = SYN + application request in 1-4 segments + FIN|ACK; other traffic H = 1-5 other TCP "
         "flows incl. tuples differing from F in exactly one field, validated and mid-request (HTTP, RPC, STUN, SSH, SMB), "
         "the IPv4-mapped twin of F's endpoints, SYN/FIN|ACK/RST/bare-ACK segments on F's own tuple, ICMP / ICMPv6 error messages quoting F's segments, rejected data segments on F's tuple before F is validated, UDP "
-        "requests, ARP, ICMP; a random order-preserving interleaving). Each frame's canonical reply in the interleaving is "
+        "requests, ARP, ICMP echo, router advertisements / solicitations / redirects / listener queries / ICMP errors about other flows; a random order-preserving interleaving). Each frame's canonical reply in the interleaving is "
         "compared with its reply when F (resp. H) runs alone on a fresh table. Non-trivial = interleavings where an accepted "
         "data segment of another flow falls between two segments of F; distinct = distinct abstract interleavings (kinds, "
         "flow indices, order).")
@@ -151,8 +151,12 @@ def triple(ctx, cfg, forced=None):
             noise.append((e.l3(1, pkt.icmp4(rng.choice([3, 3, 3, 11, 12, 4, 5]), rng.choice([0, 1, 2, 3, 4, 13]), body)), "own:icmp4err"))
     for _ in range(rng.randrange(0, 4)):
         oe = gen.endp(rng, cfg, rng.random() < 0.5)
-        k = rng.randrange(3)
-        if k == 0:
+        k = rng.randrange(4)
+        if k == 3:
+            # router advertisements / solicitations, redirects, listener queries, ICMP errors about other flows
+            nm, fr = rng.choice(gen.icmp_noise(rng, cfg))
+            noise.append((fr, nm))
+        elif k == 0:
             noise.append((oe.udp(gen.rnd_port(rng), gen.rnd_port(rng), rng.choice(gen.app_requests(rng))[1]), "udp"))
         elif k == 1:
             noise.append((oe.echo(rng.getrandbits(16), 1, b"noise"), "echo"))
